@@ -149,6 +149,7 @@ type cluster struct {
 	tainted   string
 	lost      bool // an acknowledged write was found missing from a leader
 	figure8   bool
+	diskSoft  bool // a loss attributed to a disk loss happened: its consequences are not reported again
 	secondary []string
 	unreal   string
 	stats    map[string]int
@@ -343,7 +344,17 @@ func (c *cluster) violate(sig, detail string) {
 		c.secondary = append(c.secondary, sig)
 		return
 	}
+	if c.diskSoft && (strings.HasPrefix(sig, "commit:committed") || strings.HasPrefix(sig, "read:") || strings.HasPrefix(sig, "lin:") || strings.HasPrefix(sig, "leader:")) {
+		// an acknowledged write went away with a disk (judged by its own signature, or not judged when a majority lost
+		// disks): what readers, committed prefixes and databases show afterwards follows from it; losses of OTHER
+		// acknowledged writes and protocol anomalies (acked-write-lost, swap:, truncate:, ack:, election:) are still reported
+		c.secondary = append(c.secondary, sig)
+		return
+	}
 	c.viols = append(c.viols, violation{sig, fmt.Sprintf("[step %d] %s", c.stepNo, detail)})
+	if strings.HasPrefix(sig, "diskloss:") {
+		c.diskSoft = true
+	}
 	for _, p := range tainting {
 		if strings.HasPrefix(sig, p) {
 			c.tainted = sig
